@@ -44,7 +44,7 @@ claim("C07",
       "567 cells); SliceMode->IndexMode map; the three range_indices return None exactly on a failed lookup or "
       "start>end and otherwise (start, end) obtained with GreaterOrEqual / Less|LessOrEqual; every result-relevant "
       "guard of the sampled dimension depends on position, offset and interval. Guards are evaluated on one "
-      "representative per region (the extracted guards, never repository code). The conversions read ticks/labels through the accessors (linked values when linked); range_indices answers "empty" only after a failed lookup or after comparing the two lookup results; descriptors keep nothing read from the file. NOT decided: behaviour for reals "
+      "representative per region (the extracted guards, never repository code). The conversions read ticks/labels through the accessors (linked values when linked); range_indices answers 'empty' only after a failed lookup or after comparing the two lookup results; descriptors keep nothing read from the file. NOT decided: behaviour for reals "
       "outside the region representatives beyond what the guards' structure implies, np.isclose tolerance effects, "
       "position_at/axis inverse pair.",
       "decision-table extraction by path-sensitive abstract interpretation; region-exhaustive comparison with a spec "
